@@ -52,7 +52,8 @@ def run_shard(prefs):
         a2 = MG.render_xta(m, chain=False)
         if a2 != a:
             items.append((m, r, x, a2, None))      # the same model with every transition written out in full
-        faults = FAULTS if len([c for c in r.choices if c]) <= 1 else [None]
+        # (the faults are injected by text substitution on the entity-escaped rendering)
+        faults = FAULTS if len([c for c in r.choices if c]) <= 1 and m.encoding == "entities" else [None]
         for f in faults:
             if f is None:
                 items.append((m, r, x, a, None))
